@@ -421,6 +421,25 @@ def ssl2_client_hello(kind: int, challenge: bytes) -> bool:
     return bytes(record.compose()) == wire
 
 
+def ssl2_large_records():
+    """concrete: SSL 2.0 records whose body needs more than 14 bits of length (two-byte header: 15-bit length)"""
+    from cryptoparser.tls.record import SslRecord  # pylint: disable=import-outside-toplevel
+    problems = []
+    for count in (5, 5461, 5462, 10000, 10922):
+        wire = ref.ssl2_client_hello(0x0002, [0x010080] * count, b'', bytes(range(16)))
+        try:
+            record = SslRecord.parse_exact_size(wire)
+        except Exception as exc:  # pylint: disable=broad-except
+            problems.append('client hello with %d cipher specs (%d bytes) rejected: %s' % (count, len(wire),
+                                                                                            type(exc).__name__))
+            continue
+        composed = bytes(record.compose())
+        if composed != wire:
+            problems.append('client hello with %d cipher specs: header %s, reference %s' % (
+                count, composed[:2].hex(), wire[:2].hex()))
+    return problems
+
+
 # --- vector table (concrete side condition) ----------------------------------------------------------------------------
 
 def vector_table():
@@ -590,6 +609,8 @@ def shards(tier, seed):  # pylint: disable=too-many-locals,too-many-statements
     out.append(Shard(MOD, 'ssl2_client_hello', 'message/ssl2_client_hello',
                      {'KINDS': sorted(item.value.code for item in SslCipherKind)}, 400,
                      bounds='SSL 2.0 client hello: every cipher kind, challenge with 2 symbolic bytes'))
+    out.append(Shard(MOD, 'ssl2_large_records', 'message/ssl2_large_records', {}, kind='concrete',
+                     bounds='SSL 2.0 client hellos of 26..32800 bytes (record length beyond 14 bits), natively'))
     out.append(Shard(MOD, 'vector_table', 'vector_table', {}, kind='concrete',
                      bounds='floor/ceiling/prefix width of every TLS vector class against the RFC table (natively)'))
     return out
